@@ -113,7 +113,7 @@ SEEDS = [
  ('C04-5', '/scratch/t/r4/C04-1', 'C04', 'a `reject if` with two alternatives in a block n >= 1 where an earlier alternative matches and the last one does not (early break removed)',
   {'C04': 'VIOLATION token::authorizer::Authorizer::authorize_inner::loop8.all_reject / loop8.flag'}),
  ('C04-6', '/scratch/t/r4/C04-2', 'C04', 'the same fact derived in a later round under a smaller origin than the one already stored (FactSet::merge prunes with the inclusion test reversed)',
-  {'C04': 'NOT detected (exit 0): FactSet::merge is an assumed contract of unit engine (fs_view union); HashMap entry / iterator-chain code'}),
+  {'C04': 'UNDECIDED (exit 2): unit factset puts the real FactSet::merge under contract (union, origin by origin); the filter / any / collect chain of the change is outside the verifier', 'history': 'first NOT detected (exit 0): FactSet::merge was only an assumed contract of unit engine; unit factset was added'}),
  ('C10-3', '/scratch/t/r4/C10-1', 'C10', 'a run that ends in a run-limit error, then a second authorize / query on the same authorizer (rounds of the failed run not added to the counter)',
   {'C10': 'VIOLATION datalog::World::run_with_limits::ensures.error_accounted', 'history': 'first NOT detected (exit 0): the contract only said the counter never decreases; the clause "a run-limit error has counted at least one round" was added'}),
  ('C10-4', '/scratch/t/r4/C10-2', 'C10', 'an overrun in the LAST query of the last block (time check moved in front of the evaluation)',
